@@ -2,7 +2,7 @@
    // comments).  Model: Model/Layout.v (the repaired tokenizer, Token.end / is_connected,
    CustomOrder).  Only statements, closed by `exact`, each followed by Print Assumptions. *)
 From Coq Require Import ZArith String List Bool Ascii.
-From JMCV Require Import Model.Layout Proofs.LayoutBasic Proofs.LayoutAdj Proofs.LayoutAdj2 Proofs.LayoutSim Proofs.LayoutSim2.
+From JMCV Require Import Model.Layout Proofs.LayoutBasic Proofs.LayoutAdj Proofs.LayoutAdj2 Proofs.LayoutSim Proofs.LayoutSim2 Proofs.LayoutDeep.
 Import ListNotations.
 Open Scope Z_scope.
 
@@ -41,6 +41,22 @@ Theorem C15_flat :
       map (conn_flags_with is_connected) sts = map (conn_flags_with is_connected) sts'.
 Proof. exact relayout_flat. Qed.
 Print Assumptions C15_flat.
+
+(* C15_layout — the same at EVERY nesting depth.  `shape_of fuel` is what the rest of the compiler can
+   observe of a token stream besides positions: type and text of every token, the is_connected flag
+   with its predecessor, and for every bracket the shape (recursively, `fuel` levels) of its content
+   re-tokenised the way the lexer does it (`string[1:-1]`, at line, col+1) in both modes
+   (arguments / statements); a content that is rejected in a mode, or that leaves the scope, is `None`.
+   For all programs, re-layouts, depths, modes and start positions the shapes are EQUAL. *)
+Theorem C15_layout :
+  forall cf fuel es allow_last allow_sc line col line' col' s s' f sts,
+    relayout MCode s s' ->
+    parse_st [] cf es allow_sc line col s = Ok f -> s_ev f = false -> finish [] es allow_last f = Ok sts ->
+    exists f' sts',
+      parse_st [] cf es allow_sc line' col' s' = Ok f' /\ s_ev f' = false /\ finish [] es allow_last f' = Ok sts' /\
+      map (shape_of [] cf fuel) sts = map (shape_of [] cf fuel) sts'.
+Proof. exact relayout_deep. Qed.
+Print Assumptions C15_layout.
 
 (* relayout is symmetric, so C15_flat also gives: s' accepted (in scope) -> s accepted. *)
 Theorem C15_relayout_sym : forall m s s', relayout m s s' -> relayout m s' s.
